@@ -25,6 +25,7 @@ def items():
     out["attrs"] = lambda: div({"class": "a", "id": "i", "data-z": "1"}, class_="b", style="x:1", **{"data_a": "2"}).render()
     out["head-names"] = lambda: {"html": ";".join(head_content(x).name for x in [tags.title("a"), tags.title("b"), "a", HTML("a"), TagList("a", "b"), tags.title("a")]), "dependencies": []}
     out["textdoc"] = lambda: HTMLTextDocument("".join(str(dep(n, "1.0").serialize_to_script_json()) for n in ["k", "c", "k", "a", "zz", "b", "c"]) + "X@@", deps_replace_pattern="@@").render()
+    out["textdoc2"] = lambda: HTMLTextDocument(str(dep("second", "2.0").serialize_to_script_json()) + "Y@@", deps_replace_pattern="@@").render()
     out["jsx"] = lambda: {"html": str(jsx_tag_create("Foo")(div("x", dep("j", "1")), p=1, q={"b": 1, "a": 2}, style="color:red;top:1px")), "dependencies": []}
     out["list"] = lambda: TagList(dep("x", "1"), [dep("w", "1"), dep("x", "2")], "t").render()
     out["classes"] = lambda: (lambda t: (t.add_class("c d"), t.remove_class("c"), t.add_style("a:b;"), t.render())[-1])(div(class_="a b c"))
@@ -44,7 +45,7 @@ def run(R, job):
     rnd = random.Random(job.get("seed", 0))
     n = job.get("n", 150)
     nproc = 6 if n <= 200 else 24
-    keys = ["deps-many", "doc", "attrs", "head-names", "textdoc", "jsx", "list", "classes"]
+    keys = ["deps-many", "doc", "attrs", "head-names", "textdoc", "textdoc2", "jsx", "list", "classes"]
     repo = os.environ.get("HV_REPO") or "/repo"
     fails, checked = [], 0
     ref = None
